@@ -75,6 +75,9 @@ func (c C14Case) Describe() string { return fmt.Sprintf("line=%q args=%q", c.lin
 func genC14(t *rapid.T) C14Case {
 	var c C14Case
 	n := rapid.IntRange(1, 7).Draw(t, "ntok")
+	if rapid.IntRange(0, 24).Draw(t, "longline") == 0 {
+		n = rapid.SampledFrom([]int{65, 64, 33, 129, 17}).Draw(t, "ntoklong") // a line of dozens of flags: every one of them counts
+	}
 	form := func() int {
 		return rapid.SampledFrom([]int{0, 0, 0, 0, 1, 2, 3}).Draw(t, "form")
 	}
@@ -292,6 +295,17 @@ func otherParsesDigest() string {
 	for _, l := range otherRules {
 		r, err := flags.Parse(l)
 		fmt.Fprintf(&b, "%+v %v\n", r, err)
+		if v, ok := r.(*rule.SyscallRule); ok { // the rule is the caller's now
+			for i := range v.Filters {
+				v.Filters[i].LHS, v.Filters[i].RHS = "edited", "edited"
+			}
+			for i := range v.Syscalls {
+				v.Syscalls[i] = "edited"
+			}
+			for i := range v.Keys {
+				v.Keys[i] = "edited"
+			}
+		}
 	}
 	return b.String()
 }
